@@ -1828,6 +1828,7 @@ def resolve_aliases(repo: Repo):
                     chd._parent = par
     for f in repo.all_funcs:
         _canonical_suppress(f.node)
+        _expand_kwargs_dicts(f.node)
         _canonical_partial_spawn(f.node)
         _split_live_ranges(f.node)
     for f in repo.all_funcs:
@@ -1993,6 +1994,51 @@ def _canonical_partial_spawn(fn) -> bool:
                         i -= 1
                     changed = True
                 i += 1
+    if changed:
+        for par_ in ast.walk(fn):
+            for ch in ast.iter_child_nodes(par_):
+                ch._parent = par_
+    return changed
+
+
+def _expand_kwargs_dicts(fn) -> bool:
+    """`opts = {"a": x, "b": y}` used only as `f(..., **opts)` (never mutated, values plain names/attributes/constants) is the keywords
+    written out at each call"""
+    changed = False
+    for d in [x for x in own_walk(fn) if isinstance(x, (ast.Assign, ast.AnnAssign)) and isinstance(getattr(x, "value", None), ast.Dict)]:
+        tg = d.targets[0] if isinstance(d, ast.Assign) and len(d.targets) == 1 else (d.target if isinstance(d, ast.AnnAssign) else None)
+        if not isinstance(tg, ast.Name):
+            continue
+        v = d.value
+        if not v.keys or not all(isinstance(k, ast.Constant) and isinstance(k.value, str) and k.value.isidentifier() for k in v.keys) \
+                or not all(isinstance(x, (ast.Name, ast.Attribute, ast.Constant)) for x in v.values):
+            continue
+        occ = [x for x in ast.walk(fn) if isinstance(x, ast.Name) and x.id == tg.id]
+        loads = [x for x in occ if isinstance(x.ctx, ast.Load)]
+        if len(occ) != len(loads) + 1 or not loads:
+            continue
+        if not all(isinstance(getattr(x, "_parent", None), ast.keyword) and x._parent.arg is None for x in loads):
+            continue
+        names = {y.id for x in v.values for y in ast.walk(x) if isinstance(y, ast.Name)}
+        if any(isinstance(x, ast.Name) and isinstance(x.ctx, (ast.Store, ast.Del)) and x.id in names and x is not tg for x in own_walk(fn)):
+            continue        # a value name is rebound somewhere: keep the dict
+        for x in loads:
+            kw = x._parent
+            call = getattr(kw, "_parent", None)
+            if not isinstance(call, ast.Call):
+                break
+            i = [k is kw for k in call.keywords].index(True)
+            call.keywords[i:i + 1] = [ast.keyword(arg=k.value, value=clone_expr(val)) for k, val in zip(v.keys, v.values)]
+            ast.fix_missing_locations(call)
+        else:
+            hold = getattr(d, "_parent", None)
+            for fl in ("body", "orelse", "finalbody"):
+                blk = getattr(hold, fl, None)
+                if isinstance(blk, list) and d in blk:
+                    blk.remove(d)
+                    if not blk:
+                        blk.append(ast.copy_location(ast.Pass(), d))
+            changed = True
     if changed:
         for par_ in ast.walk(fn):
             for ch in ast.iter_child_nodes(par_):
